@@ -691,15 +691,15 @@ func (s *mapSUT) describe(input, output any) string {
 	case mStore:
 		return fmt.Sprintf("Store(%s,%d)", k, in.val)
 	case mLoad:
-		return fmt.Sprintf("Load(%s) -> %d,%v", k, out.val, out.ok)
+		return fmt.Sprintf("Load(%s) = %d,%v", k, out.val, out.ok)
 	case mDelete:
 		return fmt.Sprintf("Delete(%s)", k)
 	case mLoadAndDelete:
-		return fmt.Sprintf("LoadAndDelete(%s) -> %d,%v", k, out.val, out.ok)
+		return fmt.Sprintf("LoadAndDelete(%s) = %d,%v", k, out.val, out.ok)
 	case mLen:
-		return fmt.Sprintf("Len() -> %d", out.n)
+		return fmt.Sprintf("Len() = %d", out.n)
 	case mKeys:
-		return fmt.Sprintf("Keys() -> %s%s", maskStr(out.mask), bad)
+		return fmt.Sprintf("Keys() = %s%s", maskStr(out.mask), bad)
 	case mRange:
 		var parts []string
 		for i := 0; i < maxKeys; i++ {
@@ -707,16 +707,16 @@ func (s *mapSUT) describe(input, output any) string {
 				parts = append(parts, fmt.Sprintf("%s=%d", keyNames[i], out.snap[i]))
 			}
 		}
-		return fmt.Sprintf("Range() -> {%s}%s", strings.Join(parts, " "), bad)
+		return fmt.Sprintf("Range() = {%s}%s", strings.Join(parts, " "), bad)
 	case mRangeFirst:
 		if out.n == 0 {
-			return "Range(stop at first) -> nothing" + bad
+			return "Range(stop at first) = nothing" + bad
 		}
 		kk := "?"
 		if out.key >= 0 {
 			kk = keyNames[out.key]
 		}
-		return fmt.Sprintf("Range(stop at first) -> %s=%d%s", kk, out.val, bad)
+		return fmt.Sprintf("Range(stop at first) = %s=%d%s", kk, out.val, bad)
 	}
 	return "Clear()"
 }
@@ -909,7 +909,10 @@ func (s *atomSUT) model() porcupine.Model {
 
 func fmtVal(v int64) string {
 	if v>>32 != 0 {
-		return fmt.Sprintf("%d<<32+%#x", v>>32, v&0xffffffff)
+		if v&0xffffffff == 0 {
+			return fmt.Sprintf("%d*2^32", v>>32)
+		}
+		return fmt.Sprintf("%d*2^32+%#x", v>>32, v&0xffffffff)
 	}
 	return fmt.Sprintf("%#x", v)
 }
@@ -919,13 +922,13 @@ func (s *atomSUT) describe(input, output any) string {
 	k := keyNames[in.key]
 	switch in.op {
 	case aGetOrCreate:
-		return fmt.Sprintf("GetOrCreate(%s,%s) -> obj%d", k, fmtVal(in.val), out.obj)
+		return fmt.Sprintf("GetOrCreate(%s,%s) = obj%d", k, fmtVal(in.val), out.obj)
 	case aGet:
-		return fmt.Sprintf("Get(%s) -> obj%d,%v", k, out.obj, out.ok)
+		return fmt.Sprintf("Get(%s) = obj%d,%v", k, out.obj, out.ok)
 	case aObjAdd:
-		return fmt.Sprintf("obj%d.Add(%s) -> %s", in.obj, fmtVal(in.val), fmtVal(out.val))
+		return fmt.Sprintf("obj%d.Add(%s) = %s", in.obj, fmtVal(in.val), fmtVal(out.val))
 	case aObjLoad:
-		return fmt.Sprintf("obj%d.Load() -> %s", in.obj, fmtVal(out.val))
+		return fmt.Sprintf("obj%d.Load() = %s", in.obj, fmtVal(out.val))
 	case aObjStore:
 		return fmt.Sprintf("obj%d.Store(%s)", in.obj, fmtVal(in.val))
 	case aDelete:
@@ -941,7 +944,7 @@ func (s *atomSUT) describe(input, output any) string {
 		if out.bad != "" {
 			bad = " MALFORMED: " + out.bad
 		}
-		return fmt.Sprintf("ForEach() -> {%s}%s", strings.Join(parts, " "), bad)
+		return fmt.Sprintf("ForEach() = {%s}%s", strings.Join(parts, " "), bad)
 	}
 	return "Clear()"
 }
@@ -1020,15 +1023,15 @@ func (s *sliceSUT) describe(input, output any) string {
 	in, out := input.(sliceIn), output.(sliceOut)
 	switch in.op {
 	case sAppend:
-		return fmt.Sprintf("Append(%v) -> %d", []byte(in.items), out.n)
+		return fmt.Sprintf("Append(%v) = %d", []byte(in.items), out.n)
 	case sLen:
-		return fmt.Sprintf("Len() -> %d", out.n)
+		return fmt.Sprintf("Len() = %d", out.n)
 	}
 	bad := ""
 	if out.bad != "" {
 		bad = " MALFORMED: " + out.bad
 	}
-	return fmt.Sprintf("Slice() -> %v%s", []byte(out.snap), bad)
+	return fmt.Sprintf("Slice() = %v%s", []byte(out.snap), bad)
 }
 
 // ---------------------------------------------------------------- model self-test
